@@ -50,6 +50,12 @@ claimed = {
  "C15": ("proof", "DESIGN.md 4 (C15)", "contract-based deductive verification: loop invariant over ghost traces of received lines / pushed messages, error-retention postcondition, channel message invariant, required select arms",
          "parseAuditLogs: bijection between non-empty received lines and pushes, in order, for any stream; ends only by cancellation or with a parse error wrapping the parser's error for the last line. ReassemblyComplete: one hand-off per coalesced event; on failure the 1-slot error channel is non-empty afterwards. Read: non-nil error on every failure arm, RemoteLogin errors cannot be skipped, required receive arms present.",
          "Record grouping inside go-libaudit, select fairness, Sprintf message text are not decided (listed)."),
+ "C18": ("proof", "DESIGN.md 4 (C18)", "contract-based deductive verification in lock-invariant mode: registry contents havocked at every lock acquisition, postconditions over the acquire-time snapshot",
+         "AddReadiness/OnReady/IsReady/GetReadyzStatusMap/readyzHandler and the WaitForReady goroutine are verified with the registry map havocked each time its lock is taken (all interleavings of lock-respecting goroutines): per-component statuses and 'overall' come from one snapshot, 200 iff that snapshot is all-ready, waiting completes only right after IsReady returned true and yields the context error only on the cancellation arm. Sequences of registrations/ready-marks follow by induction from the setters' exact postconditions.",
+         "No component named 'overall'; http/json externs assumed; sync.Mutex semantics."),
+ "C20": ("proof", "DESIGN.md 4 (C20)", "contract-based deductive verification: postconditions over the assumed sort.Slice contract (less closure evaluated symbolically), loop invariants over the assumed bufio contract",
+         "sortLogNamesOldToNew: result = the kept entries, ordered by numeric age, any number of files (found and fixed D6); readLines: sent lines == complete records without newline, in order, byte count == bytes of complete records; rotatingFile.read: reset on create/remove/rename, seek to the (possibly reset) offset, advance by whole lines only.",
+         "loopWithError (goroutines + fsnotify) is not under contract; file names are assumed canonical (audit.log[.N]); bufio/sort contracts assumed."),
 }
 na_reason = "not yet built in this revision of the machinery (see DESIGN.md section 7 for the construction order)"
 props = [json.loads(l) for l in open('/verif/properties.jsonl')]
